@@ -67,10 +67,23 @@ type server struct {
 	mu       sync.Mutex
 	script   []string
 	temp     bool // "neterr" answers are tempErr instead of errNet
+	nf       int  // which of nfStatuses an "nf" answer carries
 	n        int
 	t0       time.Time
 	attempts []attemptRec
 	onServe  func(n int)
+}
+
+// nfStatuses: what the non-retryable answer "nf" is on the wire - any client error that is neither 408 nor 429
+var nfStatuses = []int{404, 400, 403, 409, 431, 451, 499, 410}
+
+func isNF(code int) bool {
+	for _, c := range nfStatuses {
+		if c == code {
+			return true
+		}
+	}
+	return false
 }
 
 func status(s string) int {
@@ -124,7 +137,11 @@ func (s *server) RoundTrip(req *http.Request) (*http.Response, error) {
 	if ans == "tmra" {
 		h.Set("Retry-After", fmt.Sprint(retryAfter))
 	}
-	return &http.Response{StatusCode: status(ans), Status: fmt.Sprint(status(ans)), Header: h, Body: io.NopCloser(strings.NewReader("")), Request: req}, nil
+	code := status(ans)
+	if ans == "nf" {
+		code = nfStatuses[s.nf%len(nfStatuses)]
+	}
+	return &http.Response{StatusCode: code, Status: fmt.Sprint(code), Header: h, Body: io.NopCloser(strings.NewReader("")), Request: req}, nil
 }
 
 type oneShot struct{ r io.Reader }
@@ -168,6 +185,9 @@ func outcome(resp *http.Response, err error) string {
 		return "err:" + err.Error()
 	}
 	resp.Body.Close()
+	if isNF(resp.StatusCode) {
+		return "nf"
+	}
 	for _, a := range []string{"ok", "nf", "unauth", "rt", "tm", "ise", "un"} {
 		if status(a) == resp.StatusCode {
 			return a
@@ -209,7 +229,7 @@ func TestDrive(t *testing.T) {
 		synctest.Test(t, func(t *testing.T) {
 			ctx, cancel := context.WithCancel(context.Background())
 			defer cancel()
-			srv := &server{script: c.Script, t0: time.Now(), temp: (len(c.Script)+c.MaxRetry+len(c.Body))%2 == 0}
+			srv := &server{script: c.Script, t0: time.Now(), temp: (len(c.Script)+c.MaxRetry+len(c.Body))%2 == 0, nf: ci}
 			var cancelT int64 = -1
 			cancelled := false
 			if c.Cancel > 0 {
